@@ -1,7 +1,7 @@
 package main
 
 // C05 — in-flight events never exceed capacity; none leaks or is handed out twice.
-//  which=0: whole-pipeline conservation on the real pipeline (both pool kinds, capacity 2..24):
+//  which=0: whole-pipeline conservation on the real pipeline (both pool kinds, capacity 1..24):
 //           every pooled event goes back exactly once, the pool is idle (in-use 0, no waiters) at quiescence.
 //  which=10/11: the pools alone (harness/pooldrv) — wired by the coordinator when available.
 
@@ -24,12 +24,17 @@ func gen(c *hmain.Ctx) {
 		{Stream: "retry", Opts: pipedrv.FamRetry, N: 20},
 		{Stream: "deadqueue", Opts: pipedrv.FamDeadQ, N: 20},
 		{Stream: "deadqueue-split", Opts: pipedrv.FamDeadQSplit, N: 20},
+		// families that cross the scale / history thresholds of /repo/pipeline (what each would expose: pipedrv/gen.go)
+		{Stream: "capacity-1", Opts: pipedrv.FamCap1, N: 15},
+		{Stream: "recycle", Opts: pipedrv.FamRecycle, N: 20},
+		{Stream: "split-fan", Opts: pipedrv.FamSplitFan, N: 15},
 	})
 }
 
 func main() {
+	pipedrv.UseProductionNodePool()
 	hmain.Run(&hmain.Prop{ID: "C05",
-		Rule: "pipeline cases (see C02) with small pool capacities (2..24), decode errors, PassEvent refusals, discard / hold / collapse / split, retries and dead queue; observable = label trace incl. finalize(notify, back) and the pool state at quiescence. Every case non-trivial; distinct = distinct case text.",
+		Rule: "pipeline cases (see C02) with small pool capacities (2..24), decode errors, PassEvent refusals, discard / hold / collapse / split, retries and dead queue; observable = label trace incl. finalize(notify, back) and the pool state at quiescence. Threshold-crossing families: capacity-1, recycle (feeder op 6: pads up to 64 KiB / > 64 JSON nodes; op 'g' grows Buf; 4th case element = (avgEventSize ...)), split-fan (0-14 children); pool cases: streams size-classes (op 8: goroutine size up to 2^32-1) and recycle (op 9; gate-list option (1 avg)). Every case non-trivial; distinct = distinct case text.",
 		Gen:  gen, Exec: func(which int, cs hx.Sx) hx.Sx {
 			if which == 10 || which == 11 {
 				return pooldrv.RunCase(cs)
